@@ -29,6 +29,34 @@ fn region_of<T: Copy + Default, C: ArrayLength>(name: &'static str, m: &DenseMat
     }
 }
 
+thread_local! {
+    /// instruction sites observed (in direct kernel calls with fully known regions) to read the striped sequence matrix
+    static SEQ_SITES: std::cell::RefCell<std::collections::BTreeSet<&'static str>> = const { std::cell::RefCell::new(std::collections::BTreeSet::new()) };
+}
+
+/// Summary of a call whose only known region is the striped sequence matrix (Scanner owns its other buffers):
+/// accesses made by the sequence-reading sites are measured against that region whatever their distance,
+/// the accesses of all other sites are not judged.
+fn summarise_seq_only(kernel: &str, params: Value, seq: &Region, log: Vec<Access>) -> Value {
+    let mut sites: BTreeMap<&'static str, (usize, i64, i64, usize)> = BTreeMap::new();
+    let mut other = 0usize;
+    SEQ_SITES.with(|ss| {
+        let ss = ss.borrow();
+        for a in &log {
+            if ss.contains(a.site) {
+                let off = a.addr as i64 - seq.base as i64;
+                let e = sites.entry(a.site).or_insert((0, i64::MAX, i64::MIN, 0));
+                e.0 += 1; e.1 = e.1.min(off); e.2 = e.2.max(off + a.width as i64);
+                if a.align > 1 && a.addr % a.align != 0 { e.3 += 1; }
+            } else { other += 1; }
+        }
+    });
+    json!({"ev":"mem","kernel":kernel,"params":params,
+           "regions": [json!({"name": seq.name, "size": seq.size, "base_mod": seq.base % 32})],
+           "sites": sites.iter().map(|(site, (n, lo, hi, mis))| json!({"site": site, "region": 1, "n": n, "min_off": lo, "max_end": hi, "misaligned": mis, "write": false})).collect::<Vec<_>>(),
+           "accesses": log.len(), "unattributed": 0, "not_judged": other, "ret": "ok"})
+}
+
 fn summarise(kernel: &str, params: Value, regions: &[Region], log: Vec<Access>) -> Value {
     // site -> (region index, count, min_off, max_end, misaligned, write)
     let mut sites: BTreeMap<(&'static str, usize), (usize, i64, i64, usize, bool)> = BTreeMap::new();
@@ -43,6 +71,7 @@ fn summarise(kernel: &str, params: Value, regions: &[Region], log: Vec<Access>) 
         }
         match best {
             Some((ri, d)) if d <= 65536 => {
+                if d == 0 && regions[ri].name == "seq" { SEQ_SITES.with(|ss| { ss.borrow_mut().insert(a.site); }); }
                 let off = a.addr as i64 - regions[ri].base as i64;
                 let e = sites.entry((a.site, ri)).or_insert((0, i64::MAX, i64::MIN, 0, a.write));
                 e.0 += 1;
@@ -150,12 +179,40 @@ fn score_u8_case<P: Score<u8, Dna, U32> + Maximum<u8, U32>>(rec: &mut Recorder, 
     let mut seq: StripedSequence<Dna, U32> = Pipeline::<Dna, _>::generic().stripe(Dna::syms(&ranks));
     seq.configure(&pssm);
     let mut scores = StripedScores::<u8, U32>::empty();
-    let (r, log) = logged(|| { pli.score_into(&dm, &seq, &mut scores); (pli.argmax(&scores), pli.max(&scores)) });
+    let rr = (l + 31) / 32;
+    // full scans and row sub-ranges that do not start at row 0 (the way Scanner walks over blocks)
+    let (a, b) = if rng.gen_bool(0.5) && rr > 1 { let a = rng.gen_range(1..rr); (a, rng.gen_range(a..=rr)) } else { (0, rr) };
+    let (r, log) = logged(|| { pli.score_rows_into(&dm, &seq, a..b, &mut scores); (pli.argmax(&scores), pli.max(&scores)) });
     let kernel = format!("score_u8_{}", be);
-    let params = json!({"L": l, "M": m});
+    let params = json!({"L": l, "M": m, "a": a, "b": b});
     match r {
         Ok(_) => emit(rec, "score_u8", summarise(&kernel, params, &[region_of("seq", seq.matrix()), region_of("pssm8", dm.matrix()), region_of("scores8", scores.matrix())], log)),
         Err(msg) => emit(rec, "panic", panic_event(&kernel, params, msg)),
+    }
+}
+
+/// Scanner::next to exhaustion or Scanner::max on the AVX2 arm: the sequence-reading sites must stay inside the
+/// striped sequence matrix (sequence rows + look-ahead rows), for every block.
+fn scanner_case(rec: &mut Recorder, rng: &mut impl Rng, l: usize, m: usize, bs: usize, use_max: bool) {
+    use lightmotif::scan::Scanner;
+    let ranks = random_ranks::<Dna>(rng, l, 0.02);
+    let cells = random_pssm::<Dna>(rng, m, 0.0, true, 3);
+    let pssm = build_pssm::<Dna>(&cells);
+    let mut seq: StripedSequence<Dna, U32> = Pipeline::<Dna, _>::generic().stripe(Dna::syms(&ranks));
+    seq.configure(&pssm);
+    force(Some(Arm::Avx2));
+    let thr = if rng.gen_bool(0.5) { -100.0 } else { 0.0 };
+    let (r, log) = logged(|| {
+        let mut sc = Scanner::new(&pssm, &seq);
+        sc.threshold(thr).block_size(bs);
+        if use_max { sc.max().map(|h| h.position()).unwrap_or(0) } else { sc.count() }
+    });
+    force(None);
+    let kernel = if use_max { "scanner_max_avx2" } else { "scanner_next_avx2" };
+    let params = json!({"L": l, "M": m, "bs": bs});
+    match r {
+        Ok(_) => emit(rec, "scanner", summarise_seq_only(kernel, params, &region_of("seq", seq.matrix()), log)),
+        Err(msg) => emit(rec, "panic", panic_event(kernel, params, msg)),
     }
 }
 
@@ -197,5 +254,13 @@ pub fn record(rec: &mut Recorder, seed: u64, thorough: bool) {
         score_case::<Protein, U32, _>(rec, &Pipeline::<Protein, _>::sse2().unwrap(), "sse2", &mut r, l, m, &mut sc_s32);
         score_u8_case(rec, &Pipeline::<Dna, _>::avx2().unwrap(), "avx2", &mut r, l, m.min(12));
         if it % 3 == 0 { score_case::<Dna, U32, _>(rec, &Pipeline::<Dna, _>::dispatch(), "dispatch", &mut r, l, m, &mut sc_d); }
+    }
+    // ---- the scanner (its 8-bit block loop) on the AVX2 arm, after the direct calls above have identified the
+    //      instruction sites that read the sequence matrix
+    for it in 0..(if thorough { 200 } else { 60 }) {
+        let l = if it % 5 == 0 { r.gen_range(8000..8400) } else { r.gen_range(1..900) };
+        let m = if it % 4 == 0 { r.gen_range(18..=30) } else { r.gen_range(2..=12) };
+        let bs = [1usize, 2, 3, 7, 256][it % 5];
+        scanner_case(rec, &mut r, l, m, bs, it % 2 == 0);
     }
 }
